@@ -25,6 +25,7 @@ type sigRec struct {
 // harness drives one real machine and the reference model side by side.
 type harness struct {
 	noMoreCandidates bool     // C01: a state with another participant count was force-staged
+	refCur           *channel.State // own deep copy of the current state, taken before a candidate is derived
 	lastChecked      gen.Succ // the last candidate that passed CheckUpdate (same object)
 	prop             string
 	n, own           int
@@ -314,6 +315,7 @@ func (h *harness) candidate(st *kernel.Step) (gen.Succ, bool) {
 		return gen.Succ{}, false
 	}
 	r := kernel.NewRand(kernel.Derive(uint64(st.Int("r")), "cand"))
+	h.refCur = gen.CloneState(cur)
 	su := gen.ValidSuccessor(r, cur, h.n, h.appKind, st.Str("kind") == "final" || (st.Str("kind") != "valid" && r.Bool(0.1)))
 	switch st.Str("kind") {
 	case "valid", "final":
@@ -331,6 +333,40 @@ func (h *harness) candidate(st *kernel.Step) (gen.Succ, bool) {
 			c.Mut = "rechecked+touched"
 		}
 		return c, true
+	case "inplace":
+		// the way a caller of the library builds a candidate (client.Channel.Update
+		// does exactly this): clone the machine's state with the library's own
+		// Clone and edit the clone in place. The reference judges the candidate
+		// against the harness's own deep copy of the current state taken before.
+		var c *channel.State
+		if err, pan := h.call(func() error { c = h.m.State().Clone(); return nil }); err != nil || pan || c == nil || !gen.WellFormed(&c.Allocation) {
+			return su, true
+		}
+		c.Version = cur.Version + 1
+		out := gen.Succ{State: c, Actor: su.Actor, Mut: "inplace:version-only"}
+		delta := big.NewInt(int64(r.Range(1, 1000)))
+		a := r.Intn(len(c.Balances))
+		switch x := r.Intn(4); {
+		case x == 0 && len(c.Balances[a]) > 0:
+			// funds created in a participant's balance
+			b := c.Balances[a][r.Intn(len(c.Balances[a]))]
+			b.Add(b, delta)
+			out.Mut = "inplace:participant-balance+"
+		case x <= 2 && len(c.Locked) > 0:
+			// funds created (or destroyed) in a locked sub-allocation
+			l := c.Locked[r.Intn(len(c.Locked))]
+			if a < len(l.Bals) && l.Bals[a] != nil {
+				if x == 2 && l.Bals[a].Cmp(delta) >= 0 {
+					l.Bals[a].Sub(l.Bals[a], delta)
+					out.Mut = "inplace:locked-balance-"
+				} else {
+					l.Bals[a].Add(l.Bals[a], delta)
+					out.Mut = "inplace:locked-balance+"
+				}
+			}
+		}
+		h.res.Count("probe.candidate-edited-in-place", 1)
+		return out, true
 	case "mut":
 		out, ok := safeMutate(r, st.Str("m"), cur, su, h.n, h.appKind)
 		if !ok {
@@ -365,6 +401,9 @@ func safeMutate(r *kernel.Rand, m string, cur *channel.State, su gen.Succ, n, ap
 
 func (h *harness) refValid(c gen.Succ) (bool, string) {
 	cur := h.m.CurrentTX().State
+	if h.refCur != nil && cur != nil {
+		cur = h.refCur // the harness's own copy, made before the candidate was derived
+	}
 	return gen.RefValidSuccessor(h.params.ID(), h.params.App, h.n, cur, c.State, c.Actor)
 }
 
@@ -708,6 +747,22 @@ func (h *harness) do(st *kernel.Step) {
 		h.m = c
 		if !bytes.Equal(before, h.snapshot()) {
 			h.fail(h.prop+".clone-differs", "a clone differs observably from its original")
+		}
+	case "restore":
+		// the process restarts: a new machine is built from what the old one
+		// held (the library's RestoreStateMachine, as after a client restart).
+		// Nothing observable may change, whatever was staged and signed so far.
+		var c *channel.StateMachine
+		err, pan := h.call(func() (e error) { c, e = channel.RestoreStateMachine(h.accs[h.own].AccMap, h.m); return })
+		h.logf("restore -> %v", err)
+		if pan || err != nil || c == nil {
+			h.fail(h.prop+".restore-failed", "RestoreStateMachine failed on a live machine: %v", err)
+			return
+		}
+		h.m = c
+		h.res.Count("fault.restart-restore", 1)
+		if !bytes.Equal(before, h.snapshot()) {
+			h.fail(h.prop+".restore-differs", "a machine restored from a live one differs observably from it (phase, staged or current transaction)")
 		}
 	case "advance":
 		// composite: collect all signatures for the staged state and enable it
